@@ -182,6 +182,9 @@ class Evaluator:
         r.null_derefs.append("%s in %s" % (text, self.f.qn))
 
     def __init__(self, prog, f, env=None, calls=None):
+        r_ = getattr(prog, "_run", None)
+        if r_ is not None:
+            r_.analysed(f)              # every function that is folded (also when inlined into another fold) was analysed
         self.prog = prog
         self.f = f
         self.env = dict(env or {})     # rendered lvalue -> int
